@@ -84,6 +84,14 @@ Section Link.
   Proof. intros m p [Hp [_ <-]]. apply link_pos. exact Hp. Qed.
 End Link.
 
+Lemma forallb_false_exists : forall {X} (g : X -> bool) l, forallb g l = false -> exists x, In x l /\ g x = false.
+Proof.
+  intros X g. induction l as [|x l IH]; simpl; intro H; [discriminate|].
+  destruct (g x) eqn:E.
+  - destruct (IH H) as [y [Hy Hg]]. exists y. auto.
+  - exists x. auto.
+Qed.
+
 (* ---------- the specification on a bound shape ---------- *)
 Lemma list_eqb_refl : forall {X} (e : X -> X -> bool), (forall x, e x x = true) -> forall l, list_eqb e l l = true.
 Proof. intros X e H. induction l as [|x l IH]; simpl; auto. rewrite H, IH. reflexivity. Qed.
@@ -338,6 +346,93 @@ Section SpecOnBound.
     rewrite key_pos_exit, key_named_exit, skip_self by auto.
     rewrite (list_eqb_refl src_eqb src_eqb_refl). reflexivity.
   Qed.
+
+  Lemma exit_lt : forall m0, first_missing f k K = Some m0 -> supplied_positions sigs k K < npos sigs.
+  Proof.
+    intros m0 Hfm. destruct (first_missing_some f k K m0 Hok Hb Hfm) as [[Hr Hm] [Hun Hlt]].
+    assert (Hm0 : ~ In m0 Q).
+    { intro H. apply in_Q in H. destruct H as [_ H]. congruence. }
+    assert (Hkm : k <= m0).
+    { destruct (Nat.le_gt_cases k m0); auto. exfalso.
+      assert (supplied f k K m0 = true) by (apply supplied_iff; auto). congruence. }
+    assert (Hi : incl Q (seq k (m0 - k) ++ seq (S m0) (nf_n f - S m0))).
+    { intros p Hp. assert (p <> m0) by (intro; subst; contradiction). apply in_Q in Hp. destruct Hp as [Hp _].
+      apply in_app_iff. rewrite !in_seq. lia. }
+    pose proof (NoDup_incl_length Q_NoDup Hi) as Hle. rewrite app_length, !seq_length in Hle.
+    rewrite supplied_positions_eq, posK_length, <- Hn. lia.
+  Qed.
+
+  (* ---------- outside the domain: an argument is dropped ---------- *)
+  Lemma Q_full_length : (forall p, p < nf_n f -> supplied f k K p = true) -> length Q = nf_n f - k.
+  Proof.
+    intro Hall. assert (Hk : k <= nf_n f) by apply (b_k f k K Hb). unfold Q.
+    replace (nf_n f) with (k + (nf_n f - k)) at 1 by lia. rewrite seq_app, filter_app, app_length.
+    rewrite filter_none, filter_all.
+    - simpl. rewrite seq_length. reflexivity.
+    - intros p Hp. apply in_seq in Hp. rewrite Hall by lia. replace (k <=? p) with true by (symmetry; apply Nat.leb_le; lia). reflexivity.
+    - intros p Hp. apply in_seq in Hp. replace (k <=? p) with false by (symmetry; apply Nat.leb_gt; lia). reflexivity.
+  Qed.
+
+  Lemma psrc_kw_inv : forall p x, nf_psrc f k p = SKw x -> k <= p /\ x = nf_nm f p.
+  Proof.
+    intros p x H. unfold nf_psrc in H. destruct (p <? k) eqn:E; [discriminate|]. apply Nat.ltb_ge in E.
+    injection H as <-. auto.
+  Qed.
+
+  Lemma drop_outside : kf02_class sigs k K = true ->
+    exists m0, first_missing f k K = Some m0 /\
+      exists x, In x K /\ forall p, p < m0 -> nf_psrc f k p <> SKw x.
+  Proof.
+    intro Hc. unfold kf02_class in Hc. apply andb_true_iff in Hc. destruct Hc as [Hc1 Hc2].
+    rewrite supplied_positions_eq, posK_length, <- Hn in Hc1. apply Nat.ltb_lt in Hc1.
+    assert (Hk : k <= nf_n f) by apply (b_k f k K Hb).
+    destruct (first_missing f k K) as [m0|] eqn:Efm.
+    2:{ exfalso. pose proof (Q_full_length (first_missing_none f k K Hok Hb Efm)). lia. }
+    exists m0. split; auto.
+    destruct (first_missing_some f k K m0 Hok Hb Efm) as [[Hr Hm] [Hun Hlt]].
+    assert (Hkm : k <= m0).
+    { destruct (Nat.le_gt_cases k m0); auto. exfalso.
+      assert (supplied f k K m0 = true) by (apply supplied_iff; auto). congruence. }
+    assert (HQ : forall p, k <= p < m0 -> In p Q).
+    { intros p Hp. apply in_Q. split; [lia|]. apply Hlt. lia. }
+    assert (Hm0 : ~ In m0 Q).
+    { intro H. apply in_Q in H. destruct H as [_ H]. congruence. }
+    apply orb_true_iff in Hc2. destruct Hc2 as [Hkw'|Hhole].
+    - (* a keyword-only argument is supplied *)
+      fold kwK in Hkw'. destruct kwK as [|x l] eqn:EkwK; [discriminate|].
+      assert (Hx : In x kwK) by (rewrite EkwK; left; reflexivity).
+      unfold kwK in Hx. apply filter_In in Hx. destruct Hx as [HxK Hxn]. apply negb_true_iff in Hxn.
+      exists x. split; auto. intros p Hp E. apply psrc_kw_inv in E. destruct E as [Hkp ->].
+      destruct (Q_kwpos p (HQ p (conj Hkp Hp))) as [[A _] _]. destruct (Hpos p A) as [E' _]. congruence.
+    - (* a hole: some keyword names a positional beyond the first omitted one *)
+      assert (Hnone : spec_forward sigs false k K = None) by (destruct (spec_forward sigs false k K); [discriminate|reflexivity]).
+      rewrite spec_forward_unfold in Hnone.
+      destruct (forallb (fun o : option nat => match o with Some _ => true | None => false end) (map F (seq k (length posK)))) eqn:Ef; [discriminate|].
+      assert (Hj : exists j, k <= j < k + length Q /\ ~ In j Q).
+      { destruct (forallb_false_exists _ _ Ef) as [o [Ho Hof]]. apply in_map_iff in Ho. destruct Ho as [j [<- Hj]].
+        apply in_seq in Hj. rewrite posK_length in Hj. exists j. split; auto. intro Hin. rewrite (F_in j Hin) in Hof. discriminate. }
+      destruct Hj as [j [Hjr HjQ]].
+      destruct (existsb (fun p => m0 <=? p) Q) eqn:Eex.
+      + apply existsb_exists in Eex. destruct Eex as [p [HpQ Hple]]. apply Nat.leb_le in Hple.
+        assert (Hpm : m0 < p) by (destruct (Nat.eq_dec p m0); [subst; contradiction|lia]).
+        destruct (Q_kwpos p HpQ) as [[A _] HK]. exists (nf_nm f p). split; auto.
+        intros p' Hp' E. apply psrc_kw_inv in E. destruct E as [Hkp' E].
+        destruct (Q_kwpos p' (HQ p' (conj Hkp' Hp'))) as [[A' _] _].
+        assert (p = p') by (apply (ok_inj f Hok); auto). lia.
+      + exfalso. assert (Hall : forall p, In p Q -> p < m0).
+        { intros p Hp. destruct (Nat.lt_ge_cases p m0); auto. exfalso.
+          assert (existsb (fun p => m0 <=? p) Q = true).
+          { apply existsb_exists. exists p. split; auto. apply Nat.leb_le. lia. }
+          congruence. }
+        assert (Hi1 : incl Q (seq k (m0 - k))).
+        { intros p Hp. apply in_seq. specialize (Hall p Hp). apply in_Q in Hp. lia. }
+        pose proof (NoDup_incl_length Q_NoDup Hi1) as L1. rewrite seq_length in L1.
+        assert (Hi2 : incl (seq k (m0 - k)) Q).
+        { intros p Hp. apply in_seq in Hp. apply HQ. lia. }
+        pose proof (NoDup_incl_length (seq_NoDup (m0 - k) k) Hi2) as L2. rewrite seq_length in L2.
+        apply HjQ. apply HQ. lia.
+  Qed.
+
 End SpecOnBound.
 
 (* ---------- from the signatures to the normal form ---------- *)
